@@ -223,9 +223,35 @@ def flipbit(data, p):
     return bytes(b)
 
 
+def origptr_consistent(rng):
+    """origPtr just outside 0..nblock-1 while the stored CRCs fit what a
+    decoder that wraps, clamps or reads one node too far would produce: only
+    the range test itself can reject these."""
+    out = []
+    for k, p in enumerate([b'origptr!', b'The quick brown fox jumps over the lazy dog.',
+                           bytes(rng.randrange(97, 123) for _ in range(150))]):
+        p = fix_no_runs(p)
+        blk = B.rle1(p)
+        last, idx = B.bwt(blk)
+        nb = len(blk)
+        for v in (nb, nb + 1):
+            # every rotation of the block is what SOME start node yields
+            for interp in (range(nb) if nb <= 48 else
+                           sorted({0, 1, nb - 1, v % nb, idx})):
+                try:
+                    alt = B.unrle1(B.ibwt(last, interp))
+                except B.Reject:
+                    continue
+                w = BitWriter()
+                make_stream(w, [(p, {'origptr': v, 'crc': B.bzcrc(alt)})], 9, rng)
+                out.append(Case('m-origptr-fit-%d-%d-as%d' % (k, v, interp),
+                                w.bytes(), 'origptr-consistent-crc'))
+    return out
+
+
 def gen_malformed(rng, quick=True):
     """One crafted defect per case."""
-    out = []
+    out = origptr_consistent(rng)
     P = [b'hello hello hello world', b'a' * 300 + b'bcd' * 50,
          bytes(rng.randrange(6) for _ in range(400))]
     bases = []
@@ -233,8 +259,17 @@ def gen_malformed(rng, quick=True):
         w = BitWriter()
         make_stream(w, [(p, {'ntables': 3}), (p[::-1], {})], 9, rng)
         bases.append((w.bytes(), w.fields))
+    nblocks = [[len(B.rle1(p)), len(B.rle1(p[::-1]))] for p in P]
     for bi, (data, fields) in enumerate(bases):
+        nth_block = -1
         for (name, st, ln) in fields:
+            if name == 'origptr':
+                nth_block += 1
+                # the boundary of the valid range 0 .. nblock-1
+                nb = nblocks[bi][nth_block]
+                for v in (nb, nb + 1, nb - 1):
+                    out.append(Case('m-origptr-edge-%d-%d-%d' % (bi, nth_block, v),
+                                    setbits(data, st, ln, v), 'origptr-edge'))
             if name in ('block_magic', 'eos_magic', 'hdr_B', 'hdr_Z', 'hdr_h',
                         'hdr_level', 'block_crc', 'stream_crc', 'rand'):
                 bits = range(ln) if (not quick or ln <= 8) else \
